@@ -3,7 +3,7 @@
 From Coq Require Import String List NArith Bool.
 From J5V.lib Require Import Outcome Strcase.
 From J5V.model Require Import J5sAst Desc J5sWalk J5sLink J5sConvert J5sContract J5sValid J5sEdit J5sCorr.
-From J5V.proofs Require Import J5sProofs J5sContractProofs J5sEditProofs J5sExtProofs J5sWitnessProofs.
+From J5V.proofs Require Import J5sProofs J5sContractProofs J5sEditProofs J5sExtProofs J5sPkgExtProofs J5sWitnessProofs.
 Import ListNotations.
 Local Open Scope N_scope.
 
@@ -63,30 +63,61 @@ Proof.
 Qed.
 Print Assumptions C13_append_edits_preserve.
 
+(* the environment hypothesis of the main theorem holds for bundles edited by appends whose
+   exported names stay distinct (part of validity): exports only grow, so every reference that
+   resolved before resolves to the same type *)
+Theorem C13_environment_only_grows : forall camel bd k f f' this im,
+  nth_error bd k = Some (BJ f) -> file_src_ext f f' ->
+  (forall p l, pkg_exports camel (update_nth k (fun _ => BJ f') bd) p = Some l ->
+               J5sValid.distinct (map tr_name l) = true) ->
+  env_le (mkEnv this im (pkg_exports camel bd))
+         (mkEnv this im (pkg_exports camel (update_nth k (fun _ => BJ f') bd))).
+Proof.
+  intros camel bd k f f' this im Hk Hext Hd. apply env_le_of_exports.
+  exact (exports_le_of_edit camel bd k f f' Hk Hext Hd).
+Qed.
+Print Assumptions C13_environment_only_grows.
+
+(* whole packages, before the link step: in a bundle where one source file (the only one with
+   its file name) was extended by any sequence of append edits and exported names stay distinct,
+   every package converts to descriptors into which the old descriptors embed - the untouched
+   files of the package included, and in the same file order *)
+Theorem C13_package_append_preserves : forall snake camel screaming bd f f' pkg D D',
+  file_src_ext f f' ->
+  (forall x, In x bd -> bfile_path x = j5s_path f -> x = BJ f) ->
+  (forall p l, pkg_exports camel (map (replace_file f') bd) p = Some l -> J5sValid.distinct (map tr_name l) = true) ->
+  convert_package snake camel screaming bd pkg = Ok D ->
+  convert_package snake camel screaming (map (replace_file f') bd) pkg = Ok D' ->
+  files_ext D D'.
+Proof.
+  intros snake camel screaming bd f f' pkg D D' Hext Honly Hd.
+  exact (convert_package_ext snake camel screaming bd f f' Hext Honly pkg D D' Hd).
+Qed.
+Print Assumptions C13_package_append_preserves.
+
 (* the property at full strength: for every valid package and every sequence of append edits
    (fold_left over the list) that leaves it valid, the edited package compiles and every
    previously generated file, message, field, enum value, service and method is unchanged
-   (embedded: J5sEdit.files_ext) *)
+   (embedded: J5sEdit.files_ext).  Proved so far: existence (the edited package compiles:
+   C02_valid_packages_compile) and the embedding for whole packages before the link step
+   (C13_package_append_preserves); the composition through the link step is not yet a theorem
+   (the link step only qualifies type names: J5sLink.v). *)
 Definition C13_full_statement : Prop :=
   forall bd es pkg D,
     valid bd = true -> valid (apply_edits bd es) = true ->
     compile bd pkg = Ok D ->
     exists D', compile (apply_edits bd es) pkg = Ok D' /\ files_ext D D'.
 
-(* refuted by the faithful model through the C02 defect (relative names of inline types):
-   `object Foo { field x object {} }` compiles; after appending `field foo object {}` the
-   existing field x no longer resolves (Foo.X is looked up inside the new Foo.Foo) *)
-Theorem C13_append_breaks_existing_refuted :
-  valid w_before = true /\
-  valid (apply_edits w_before [EAppendField 0 0 (Property (b "foo") false false (FObjInline [] PNil))]) = true /\
-  is_ok (compile w_before (b "foo.v1")) = true /\
-  is_err (compile (apply_edits w_before [EAppendField 0 0 (Property (b "foo") false false (FObjInline [] PNil))]) (b "foo.v1")) = true.
-Proof. exact append_breaks_existing. Qed.
-Print Assumptions C13_append_breaks_existing_refuted.
-
-Theorem C13_full_statement_refuted : ~ C13_full_statement.
-Proof. exact full_statement_refuted. Qed.
-Print Assumptions C13_full_statement_refuted.
+(* regression example (defect repaired by 2ef7c92): `object Foo { field x object {} }` and the same
+   with `field foo object {}` appended both compile, and the existing field x keeps its type *)
+Theorem C13_fixed_append_keeps_existing :
+  valid w_before = true /\ valid (apply_edits w_before w_edit) = true /\
+  exists D D', compile w_before (b "foo.v1") = Ok D /\
+               compile (apply_edits w_before w_edit) (b "foo.v1") = Ok D' /\
+               first_field_tname D' = first_field_tname D /\
+               first_field_tname D = abs_name (b "foo.v1") [b "Foo"; b "X"].
+Proof. exact append_keeps_existing. Qed.
+Print Assumptions C13_fixed_append_keeps_existing.
 
 (* non-vacuity: appending a field to a two-field object keeps fields 1 and 2 and adds number 3 *)
 Example C13_example :
